@@ -47,6 +47,24 @@ def run(tier: str) -> int:
         vs = VARIANTS if tier == "thorough" else [VARIANTS[0], VARIANTS[4 if i % 2 else 1]] + rng.sample(VARIANTS[1:], 2)
         jobs.append((cfg, vs, str(REPO)))
     results = twins.pool_map(twins._c01_worker, jobs, procs=8)  # noqa: SLF001
+    # process history is not part of the configuration either: a fresh interpreter vs one that ran other calibrations before
+    hist_jobs, hist_cfgs = [], []
+    for i in range(3 if tier == "quick" else 16):
+        cfg = twins.random_config(rng, rl=False, heavy=False)
+        d = rng.choice([2, 3, 4])
+        cfg["bounds"], cfg["prec"] = [[0.0] * d, [1.0] * d], [0.01] * d
+        cfg["lineup"] = [["HaltonSampler", 2], [rng.choice(["RSequenceSampler", "RandomUniformSampler", "BestBatchSampler", "ParticleSwarmSampler"]), 2]]
+        cfg["batches"] = 3
+        warm = []
+        for dd in ([d - 1, d + 1] if i % 2 else [d - 1]):
+            w = dict(cfg)
+            w["bounds"], w["prec"], w["seed"] = [[0.0] * dd, [1.0] * dd], [0.01] * dd, rng.randrange(1, 2**31)
+            warm.append(w)
+        hist_cfgs.append(cfg)
+        hist_jobs += [(cfg, [], "process=fresh", str(REPO)), (cfg, warm, "process=after-other-calibrations", str(REPO))]
+    hev = twins.fresh_map(twins._c01_history_worker, hist_jobs, procs=6)  # noqa: SLF001
+    for k, cfg in enumerate(hist_cfgs):
+        results.append({"cfg": cfg, "ev": hev[2 * k] + hev[2 * k + 1], "variants": [{"process": "fresh"}, {"process": "after-other-calibrations"}]})
     doc = {"traces": [{"ev": r["ev"]} for r in results]}
     res = tlc.validate("Observable", "Observable.cfg", doc)
     chk.add_validation(res)
@@ -62,7 +80,7 @@ def run(tier: str) -> int:
         ev = r["ev"][why["at"] - 1]
         variant = [e for e in r["ev"][:why["at"]] if e["e"] == "variant"][-1]["axes"]
         kind = "crash" if ev["e"] == "crash" else "differs"
-        axes = "+".join(sorted(a.split("=")[0] for a in variant.split(",") if not a.endswith("=1") and not a.endswith("=False")))
+        axes = "+".join(sorted(a.split("=")[0] for a in variant.split(",") if not a.endswith("=1") and not a.endswith("=False") and not a.endswith("=fresh")))
         if kind == "crash":
             key = f"{r['cfg']['kind']}:crash:{'saving' if 'saving' in axes else (axes or 'njobs')}:{ev.get('what', '').split(':')[0]}"
         else:
